@@ -2,6 +2,7 @@ package main
 
 import (
 	"fmt"
+	"go/ast"
 	"strings"
 
 	"verif/extract/elib"
@@ -49,6 +50,130 @@ func extractC36(o *elib.Out) {
 			}
 		}
 		o.Set("seg.replaySeedsTrunc", anchor, fmt.Sprint(seed >= 0 && seed < rp), op != nil && rp >= 0, "false")
+	}
+	// seg.wdRetainShape: ONE loop over ptrs that lowers retainSegment by every pointer's
+	// Segment and SegmentIndex (a per-pointer minimum); anything else (cascades, several loops)
+	// is a different retention rule.
+	{
+		anchor := "metrics/wal.go:AnalyzeWALBacklog"
+		loops, good := 0, false
+		if ab != nil {
+			ast.Inspect(ab.Body, func(n ast.Node) bool {
+				rs, ok := n.(*ast.RangeStmt)
+				if !ok || mw.Src(rs.X) != "ptrs" {
+					return true
+				}
+				loops++
+				_, a := mw.FindCmp(rs.Body, "ptr.Segment", "retainSegment")
+				_, b := mw.FindCmp(rs.Body, "idx", "retainSegment")
+				opA, _ := mw.FindCmp(rs.Body, "ptr.Segment", "retainSegment")
+				opB, _ := mw.FindCmp(rs.Body, "idx", "retainSegment")
+				if a && b && opA == "lt" && opB == "lt" {
+					good = true
+				}
+				return true
+			})
+		}
+		v := "other"
+		if loops == 1 && good {
+			v = "perPointerMin"
+		}
+		o.Set("seg.wdRetainShape", anchor, v, ab != nil, "perPointerMin")
+	}
+	// seg.flushRemovePos / seg.flushEditOrder: levelManager.flush installs the table
+	// (LogEdits(AddFile, LogPointer) in that order, error => return) and only then, on the
+	// straight-line path (no defer), removes the WAL segment under canRemoveWalSegment.
+	fl := lv.Func("levelManager.flush")
+	{
+		anchor := "lsm/levels.go:levelManager.flush"
+		deferred := false
+		if fl != nil {
+			ast.Inspect(fl.Body, func(n ast.Node) bool {
+				if d, ok := n.(*ast.DeferStmt); ok && strings.Contains(lv.Src(d), "RemoveSegment") {
+					deferred = true
+				}
+				return true
+			})
+		}
+		le := lv.CallIndex(body(fl), "lm.manifestMgr.LogEdits")
+		cr2 := lv.CallIndex(body(fl), "lm.canRemoveWalSegment")
+		v := "other"
+		switch {
+		case deferred:
+			v = "deferred"
+		case le >= 0 && cr2 > le:
+			v = "afterInstall"
+		case le >= 0 && cr2 >= 0 && cr2 < le:
+			v = "beforeInstall"
+		}
+		o.Set("seg.flushRemovePos", anchor, v, fl != nil && le >= 0 && cr2 >= 0, "afterInstall")
+
+		// order of the edit kinds handed to LogEdits
+		kinds := map[string]string{} // identifier -> edit type
+		var sliceKinds []string
+		var order []string
+		okOrder := false
+		if fl != nil {
+			typeOf := func(cl *ast.CompositeLit) string {
+				for _, e := range cl.Elts {
+					if kv, ok := e.(*ast.KeyValueExpr); ok && lv.Src(kv.Key) == "Type" {
+						return strings.TrimPrefix(lv.Src(kv.Value), "manifest.")
+					}
+				}
+				return ""
+			}
+			ast.Inspect(fl.Body, func(n ast.Node) bool {
+				as, ok := n.(*ast.AssignStmt)
+				if !ok || len(as.Lhs) != 1 || len(as.Rhs) != 1 {
+					return true
+				}
+				cl, ok := as.Rhs[0].(*ast.CompositeLit)
+				if !ok {
+					return true
+				}
+				if t := typeOf(cl); t != "" {
+					kinds[lv.Src(as.Lhs[0])] = t
+					return true
+				}
+				// a slice literal of edits
+				var ks []string
+				for _, e := range cl.Elts {
+					if inner, ok := e.(*ast.CompositeLit); ok {
+						if t := typeOf(inner); t != "" {
+							ks = append(ks, t)
+						}
+					}
+				}
+				if len(ks) > 0 {
+					kinds[lv.Src(as.Lhs[0])+"..."] = strings.Join(ks, ",")
+					sliceKinds = ks
+				}
+				return true
+			})
+			ast.Inspect(fl.Body, func(n ast.Node) bool {
+				c, ok := n.(*ast.CallExpr)
+				if !ok || lv.Src(c.Fun) != "lm.manifestMgr.LogEdits" {
+					return true
+				}
+				okOrder = true
+				for _, a := range c.Args {
+					src := lv.Src(a)
+					if c.Ellipsis.IsValid() {
+						src += "..."
+					}
+					if cl, ok := a.(*ast.CompositeLit); ok {
+						order = append(order, typeOf(cl))
+					} else if k, ok := kinds[src]; ok {
+						order = append(order, k)
+					} else {
+						okOrder = false
+					}
+				}
+				return true
+			})
+		}
+		_ = sliceKinds
+		o.Set("seg.flushEditOrder", anchor, strings.Join(order, ","), okOrder && len(order) > 0, "EditAddFile,EditLogPointer")
 	}
 	mt := o.Load("lsm/memtable.go")
 	rc := mt.Func("LSM.recovery")
